@@ -209,6 +209,9 @@ DictTexts == SpecialTexts \cup
     <<237, 159, 191>>, <<238, 128, 128>>, <<194, 160>>, <<224, 160, 128>>,  \* U+D7FF, U+E000, U+00A0, U+0800
     [i \in 1..41 |-> IF i % 8 = 0 THEN 47 ELSE 97 + (i % 26)] }            \* 41 characters with separators
 
+(* texts that are not well-formed UTF-8 (accepted or rejected at the decoder's choice; rendering them must still be total) *)
+BadTexts == { [i \in 1..70 |-> 128 + (i % 64)], [i \in 1..66 |-> IF i = 66 THEN 97 ELSE 191], <<255, 255, 255>>, <<192, 128>>, <<237, 160, 128>>,
+              [i \in 1..130 |-> IF i % 2 = 0 THEN 128 ELSE 195], <<97, 0, 98>>, <<240, 159>> }
 TextPkts(t, tx) ==
   LET up1 == PV(38, <<tx, Txt(1)>>)  up2 == PV(38, <<Txt(2), tx>>) IN
   IF t = 1 THEN { [t |-> 1, fl |-> 0, v |-> [ProtocolName |-> MQTTName, ProtocolVersion |-> 5, ConnectFlags |-> 128 + 64 + 4,
@@ -355,6 +358,12 @@ MutantCases ==
              \* a property repeated (protocol error, verdict "either"): same value, zero / empty value, both orders
              \cup UNION {{[kind |-> "dupprop", p |-> p, pos |-> pos, zero |-> z, first |-> fs] :
                             pos \in 1..NProps(p), z \in BOOLEAN, fs \in BOOLEAN} : p \in {q \in base : NProps(q) \in 1..2}}
+             \* a property repeated, the second occurrence malformed: a boolean of 7, or the frame ending one byte early inside it
+             \cup UNION {{[kind |-> "dupbad", p |-> p, pos |-> pos, mode |-> md] :
+                            pos \in {i \in 1..NProps(p) : PropKind(p.v["Props"][i][1]) # "pair"}, md \in {"bool7", "cut1"}}
+                         : p \in {q \in SweepBase(t) \cup base : NProps(q) \in 1..2 /\ DOMAIN q.v \cap {"Payload", "Filters", "ReasonCodes", "ClientID"} = {}}}
+             \* text fields holding bytes that are not well-formed UTF-8, among them long runs of continuation bytes
+             \cup {[kind |-> "badtext", p |-> p] : p \in UNION {TextPkts(t, tx) : tx \in BadTexts}}
              \* every variable byte integer of the frame (remaining length = field 0, property lengths, subscription
              \* identifiers) re-written as five bytes that spell the same value
              \cup UNION {{[kind |-> "vbi5", p |-> p, fld |-> j, b5 |-> b5] :
@@ -385,6 +394,12 @@ MutantFrame(m) ==
            post == IF m.t = 1 THEN <<0, 0>> ELSE IF m.t = 8 THEN <<0, 1, 97, 0>> ELSE IF m.t = 10 THEN <<0, 1, 97>> ELSE IF m.t \in {9, 11} THEN <<0>> ELSE <<>>
            body == IF m.t \in {12, 13} THEN <<>> ELSE pre \o <<Len(props)>> \o props \o post
        IN <<m.t * 16 + (IF m.t \in {6, 8, 10} THEN 2 ELSE 0), Len(body)>> \o body
+  ELSE IF m.kind = "badtext" THEN Encode(m.p)
+  ELSE IF m.kind = "dupbad" THEN
+       LET pr == m.p.v["Props"][m.pos]
+           n == NProps(m.p)
+           g == Encode(WithProp(m.p, n + 1, IF m.mode = "bool7" /\ PropKind(pr[1]) = "bool" THEN PV(pr[1], 7) ELSE pr))    \* the repeat is the last property
+       IN IF m.mode = "cut1" THEN SubSeq(<<g[1], g[2] - 1>> \o SubSeq(g, 3, Len(g) - 1), 1, Len(g) - 1) ELSE g
   ELSE IF m.kind = "dupprop" THEN
        LET pr == m.p.v["Props"][m.pos]
            other == IF m.zero THEN PV(pr[1], IF PropKind(pr[1]) = "pair" THEN <<pr[2][1], <<>>>> ELSE ZeroWire(pr[1])) ELSE pr
@@ -393,6 +408,9 @@ MutantFrame(m) ==
   ELSE <<f[1], 255, 255, 255, 255, m.b5>> \o SubSeq(f, d.hdr + 1, Len(f))
 
 MutantValid(m) == IF m.kind \in {"undef", "foreign", "badutf8"} THEN m.pos <= Len(m.p.v["Props"]) + 1
+                  ELSE IF m.kind = "dupbad" THEN /\ Len(Encode(m.p)) < 120          \* (one-byte remaining length, so that cut1 can lower it in place)
+                                                 /\ (m.mode = "bool7" => PropKind(m.p.v["Props"][m.pos][1]) = "bool")
+                                                 /\ (m.mode = "cut1" => PropKind(m.p.v["Props"][m.pos][1]) \in {"u16", "u32", "str", "bin"})
                   ELSE IF m.kind = "badsubid" THEN m.t \notin {12, 13}
                   ELSE TRUE
 
@@ -404,6 +422,8 @@ MutantTheorems(m) ==
        vd.kind = "reject" /\ vd.cls = (IF m.kind = "cut" THEN "cut" ELSE m.kind)
   ELSE IF m.kind = "vbi5" /\ m.fld # 0 /\ ~StrictDecode(Encode(m.p)).fm[m.fld].pv     \* a property length (the value of a property would
   THEN LET vd == Verdict(f) IN vd.kind = "reject" /\ vd.cls = "fifth"                   \* outgrow its section: see badsubid for those)
+  ELSE IF m.kind = "dupbad"          \* the lenient reading meets the fault behind the repeated property: must reject, whatever the decoder tolerates
+  THEN LET vd == Verdict(f) IN vd.kind = "reject" /\ vd.cls = (IF m.mode = "bool7" THEN "bool" ELSE "cut")
   ELSE IF m.kind = "badsubid"        \* a subscription identifier where the packet may carry none: its integer is still an integer
   THEN LET vd == Verdict(f) IN Len(m.val) = 5 => vd.kind = "reject" /\ vd.cls = "fifth"
   ELSE TRUE
@@ -459,7 +479,22 @@ BuildOps(p) ==
      ELSE IF t = 10 THEN new \o pid \o props \o [i \in 1..Len(v["Filters"]) |-> CallOp(1, "AddFilter", <<v["Filters"][i]>>)]
      ELSE new \o pid \o rc \o props
 
+(* packets with long fields: the same round trip with the accessor record logged only where it is judged (after the last call, *)
+(* at the write and at the read), and without the repetitions: the volume of the trace, not the verdict, is what is cut        *)
+BigBuildProg(p) ==
+  LET ops == BuildOps(p) IN
+  [fam |-> "build", meta |-> [t |-> p.t, big |-> TRUE],
+   steps |-> [i \in 1..Len(ops) |-> IF i < Len(ops) THEN ops[i] @@ [noobs |-> TRUE] ELSE ops[i]] \o
+             << [op |-> "WriteTo", h |-> 1],
+                [op |-> "Stream", stream |-> 1, from |-> 1],
+                [op |-> "ReadPacket", h |-> 3, stream |-> 1],
+                [op |-> "Diag", h |-> 1, noobs |-> TRUE],
+                [op |-> "WriteTo", h |-> 1, noobs |-> TRUE],
+                [op |-> "Stream", stream |-> 1, from |-> 1, key |-> "flip"],
+                [op |-> "ReadPacket", h |-> 5, stream |-> 1],
+                [op |-> "WriteTo", h |-> 3, noobs |-> TRUE] >>]
 BuildProg(p) ==
+  IF Len(Encode(p)) > 4000 THEN BigBuildProg(p) ELSE
   [fam |-> "build", meta |-> [t |-> p.t],
    steps |-> BuildOps(p) \o
              << [op |-> "WriteTo", h |-> 1],
@@ -468,7 +503,15 @@ BuildProg(p) ==
                 [op |-> "Diag", h |-> 1],
                 [op |-> "WriteN", h |-> 1, n |-> 8],
                 [op |-> "WriteTo", h |-> 1],
-                [op |-> "Diag", h |-> 3] >>]
+                [op |-> "Diag", h |-> 3],
+                \* the same bytes read once more while the first decoded packet is still in use: it must still be written as before
+                [op |-> "Stream", stream |-> 1, from |-> 1],
+                [op |-> "ReadPacket", h |-> 4, stream |-> 1],
+                [op |-> "WriteTo", h |-> 3],
+                \* and a frame of the same size whose last bytes differ (key flip: the driver alters them)
+                [op |-> "Stream", stream |-> 1, from |-> 1, key |-> "flip"],
+                [op |-> "ReadPacket", h |-> 5, stream |-> 1],
+                [op |-> "WriteTo", h |-> 3], [op |-> "Diag", h |-> 3] >>]
 
 (* the model state after BuildOps(p) reports what the frame of p carries *)
 RECURSIVE RunOps(_, _, _)
